@@ -291,6 +291,8 @@ def run(ctx):
     nvec = r2(ctx, vs)
     cov = coverage(ctx, [v for v in vs if not v.name.startswith('ca')])
     r3(ctx); r4(ctx); r4_vartrail(ctx)
+    import tbl
+    tbl.rule_representations(ctx, 'C02.R5')
     for lang, (k, n) in cov.items():
         rep.require(n > 300, '%s skeleton model has only %d text chunks' % (lang, n))
     rep.require(cov['cpp'][0] >= 0.93 * cov['cpp'][1], 'core variants keep only %d of %d cpp skeleton chunks live' % cov['cpp'])
@@ -298,6 +300,7 @@ def run(ctx):
     rep.floor('C02.R2', 95, 'core variants (failures with one root cause share a key)')
     rep.floor('C02.R3', 8, '4 macros x 2 sibling skeletons')
     rep.floor('C02.R4', 13, 'reference table of refusals')
+    rep.floor('C02.R5', 10, 'language probes, with and without REJECT')
     rep.undecided += ['behavioural equality of the scanners across table representations, APIs and back ends (run-time quantity)',
                       'the go back end is analysed but its ill-formed outputs are notes, not violations (not a documented back end in the property)']
     rep.assumptions += ['clang 14 front end (gnu11 / gnu++17, glibc headers) as the well-formedness oracle',
